@@ -196,7 +196,23 @@ defvjp(anp.dsplit, lambda ans, ary, idxs: lambda g: anp.concatenate(g, axis=2))
 defvjp(anp.ravel, lambda ans, x, order=None: lambda g: anp.reshape(g, anp.shape(x), order=order))
 defvjp(anp.expand_dims, lambda ans, x, axis: lambda g: anp.reshape(g, anp.shape(x)))
 defvjp(anp.squeeze, lambda ans, x, axis=None: lambda g: anp.reshape(g, anp.shape(x)))
-defvjp(anp.diag, lambda ans, x, k=0: lambda g: anp.diag(g, k))
+
+
+def grad_diag(ans, x, k=0):
+    if anp.ndim(x) != 2:
+        return lambda g: anp.diag(g, k)
+    n, m = anp.shape(x)
+
+    def vjp(g):
+        # g sits on the k-th diagonal of a matrix with x's (possibly non-square) shape
+        square = anp.diag(g, k)
+        s = anp.shape(square)[0]
+        return anp.pad(square, ((0, max(n - s, 0)), (0, max(m - s, 0))), mode="constant")[:n, :m]
+
+    return vjp
+
+
+defvjp(anp.diag, grad_diag)
 defvjp(anp.flipud, lambda ans, x,: lambda g: anp.flipud(g))
 defvjp(anp.fliplr, lambda ans, x,: lambda g: anp.fliplr(g))
 defvjp(anp.rot90, lambda ans, x, k=1: lambda g: anp.rot90(g, -k))
